@@ -1,4 +1,4 @@
-SPECIFICATION TSpec
+SPECIFICATION Spec
 CONSTANTS
   Waiters <- mcWaiters
   Setters <- mcSetters
@@ -7,7 +7,7 @@ CONSTANTS
   MaxChan = 5
   CanClose = TRUE
   Cancels <- mcCancels
-  ProbeFirst = FALSE
+  ProbeFirst = TRUE
+VIEW view
 INVARIANTS NoLostWakeup Caused TokenMutex
-POSTCONDITION Accepted
 CHECK_DEADLOCK FALSE
